@@ -1,9 +1,13 @@
 """C17 — paginated listing (DESIGN.md section 6, C17; patterns P2 + P3).
 
 model     Paginate.tla / PaginateMC.tla checked exhaustively by TLC (5 ids, page sizes 1..3, bounded histories,
-          traversals under a visibility filter that hides a set of ids: pages arrive shortened or empty with a cursor)
+          traversals under a visibility filter that hides a set of ids: pages arrive shortened or empty with a cursor;
+          every id has an identifier class size/flavour per feature kind, tEndCls = class of the identifier that
+          ended the last non-final page, i.e. of the unique id inside the cursor)
 generate  transition cover (tools/graphwalk.py) of the reduced Paginate state graph -> histories
           (StartTraversal(H) / Iterate(H) for the hidden sets H of the tier);
+          transition cover of the boundary graph (PaginateMC!BoundarySpec: kind x page size x class map, view with
+          kind, cls, tEndCls) -> histories that put every class at a page boundary for every kind and page size;
           seeded random histories and cursor jobs are generated inside the Go harness
 replay    harness/mcp/c17_paginate_test.go: real Server + real Client over in-memory transports, 4 feature kinds;
           the filter is a receiving middleware on the real server
@@ -53,6 +57,53 @@ def cover_histories(v, seed, tier):
     return rows
 
 
+def strings_of(txt):
+    return re.findall(r'"((?:[^"\\]|\\.)*)"', str(txt))
+
+
+def slim(rows):
+    """What TLC reads: the same lines without the fields that only serve replay (cursor bytes, concrete unique ids)."""
+    return [{k: x for k, x in r.items() if k not in ("raw", "names", "panic", "stems")} for r in rows]
+
+
+def boundary_histories(v, seed, tier):
+    """Edge cover of the boundary graph: BSetup(kind, ps, class map) then traversals, iterator runs and removal of
+    the identifier the cursor was made from. Returns (rows, classes per kind, class maps per kind, required
+    (kind, ps, class) triples: the classes of the uniform maps, which end a non-final page for every ps)."""
+    wd = vlib.scratch("tlc-")
+    dot = os.path.join(wd, "b.dot")
+    cfg = "Paginate_boundary.cfg" if tier == "quick" else "Paginate_boundary_thorough.cfg"
+    rc = vlib.run_tlc("PaginateMC", cfg, workdir=wd, timeout=600, heap_gb=4, workers=4,
+                      extra_args=["-dump", "dot,actionlabels", dot])
+    vlib.tlc_must_pass(rc, "boundary")
+    if not rc.ok:
+        raise vlib.MachineryError("boundary model violates %s" % rc.violation)
+    v.add_tlc(cfg, rc)
+    init, edges = graphwalk.parse_dot(dot)
+    paths, total_edges = graphwalk.cover(init, edges, maxlen=40, seed=seed, skip_selfloops=False)
+    v.cov["boundary_graph"] = {"nodes": len(edges), "edges": total_edges, "paths": len(paths)}
+    rows, classes, maps, required = [], {}, {}, set()
+    for i, p in enumerate(paths):
+        if not p or p[0][0] != "BSetup":
+            raise vlib.MachineryError("boundary path %d does not start with BSetup: %r" % (i, p[:2]))
+        kind, ps, m = p[0][1][0], int(p[0][1][1]), strings_of(p[0][1][2])
+        if kind not in KINDS or len(m) != 5:
+            raise vlib.MachineryError("boundary path %d: bad BSetup %r" % (i, p[0]))
+        classes.setdefault(kind, set()).update(m)
+        if m not in maps.setdefault(kind, []):
+            maps[kind].append(m)
+        if len(set(m)) == 1:
+            required.add((kind, ps, m[0]))
+        ops = []
+        for (name, args) in p[1:]:
+            name = {"BRemove": "Remove", "BIterate": "Iterate"}.get(name, name)
+            if name in ("CStartTraversal", "Iterate"):
+                args = []
+            ops.append([name, args])
+        rows.append({"id": "bound%d.%s" % (i, kind), "kind": KINDS.index(kind), "ps": ps, "init": [1, 2, 3, 4, 5], "cls": m, "ops": ops})
+    return rows, {k: sorted(c) for k, c in classes.items()}, maps, required
+
+
 def run_shard(binpath, shard, nshards, part, env, timeout, result):
     """One shard of the harness (jobs with index % nshards == shard). When the process dies inside the code under
     test, the pending line (the request in flight, err=crash) is appended to the log and the shard is restarted
@@ -92,7 +143,7 @@ def run_shard(binpath, shard, nshards, part, env, timeout, result):
     result[shard] = ("ok", rows, "\n".join(outputs), exhausted)
 
 
-def run_harness(out, hist_path, seed, nrand, ncur, narb, cursor_replay=None, race=False, nshards=4, cursor_how=None):
+def run_harness(out, hist_path, seed, nrand, ncur, narb, cursor_replay=None, race=False, nshards=4, cursor_how=None, classes=None):
     """Builds the test binary once (go test -c through vlib.go_test, overlay) and runs it in nshards processes."""
     wd = vlib.scratch("c17bin-")
     binpath = os.path.join(wd, "c17.test")
@@ -101,6 +152,8 @@ def run_harness(out, hist_path, seed, nrand, ncur, narb, cursor_replay=None, rac
     if rc != 0 or not os.path.exists(binpath):
         raise vlib.MachineryError("C17 harness does not build:\n" + gout[-3000:])
     env = {"VERIF_IN": hist_path, "VERIF_SEED": seed, "VERIF_RANDOM": nrand, "VERIF_CURSORS": ncur, "VERIF_CURSORN": narb}
+    if classes:
+        env["VERIF_CLASSES"] = json.dumps(classes)
     if cursor_replay:
         env["VERIF_CURSOR_REPLAY"] = ",".join(cursor_replay)
         env["VERIF_CURSOR_HOW"] = cursor_how or "replay"
@@ -127,7 +180,9 @@ def run_harness(out, hist_path, seed, nrand, ncur, narb, cursor_replay=None, rac
     all_rows = [r for (_, _, r) in keyed]
     obs = os.path.join(out, "obs.ndjson")
     vlib.write_ndjson(obs, all_rows)
-    return obs, all_rows, "\n".join(outputs), exhausted
+    obs_tlc = os.path.join(out, "obs_tlc.ndjson")  # same lines, same numbering
+    vlib.write_ndjson(obs_tlc, slim(all_rows))
+    return obs_tlc, all_rows, "\n".join(outputs), exhausted
 
 
 def ops_of(trows, upto):
@@ -150,6 +205,10 @@ def run(tier, seed, replay):
     v = vlib.Verdict(PID, tier, seed)
     v.assumptions = [
         "universe of 5 unique ids per server (concrete names/URIs drawn from a seeded pool, ranked bytewise); page sizes 1-3 exhaustively, 1-6 in random histories",
+        "identifier classes are those of Paginate.tla (size x flavour per feature kind: tool names up to the 128-byte limit; prompt names, "
+        "resource URIs and URI templates short / 150-200 B / ~1 KB / 4-6.5 KB; percent-escapes, query strings, non-ASCII, characters JSON escapes, "
+        "template expressions); a class is realised by a seeded filler of that size and flavour appended to the pool name; unique ids the SDK "
+        "itself refuses at registration (control characters, broken %XX, characters a URI template does not admit) are not generated",
         "a cursor is 'malformed' iff the reference decoder of the documented format (base64url(gob(pageToken{LastUID}))) rejects it",
         "a request that does not return within 20 s (real time) counts as a hang; a crash of the test process is attributed to the request in flight",
         "in-memory transports; one client session per server; TTL 0 (no client-side caching of list results)",
@@ -192,7 +251,7 @@ def run(tier, seed, replay):
 
     def one_witness(wit):
         cfgtxt = ("SPECIFICATION MCSpec\nCONSTANTS\n  Ids = {1,2,3,4}\n  PageSizes = {1,2}\n  MaxMut = 2\n  MaxTrav = 1\n"
-                  "CONSTANT HiddenSets <- SomeHidden\nCONSTRAINT Bound\nVIEW MCView\nINVARIANT %s\n" % wit)
+                  "CONSTANT HiddenSets <- SomeHidden\nCONSTANT ClassMaps <- MixedMap\nCONSTRAINT Bound\nVIEW MCView\nINVARIANT %s\n" % wit)
         witres[wit] = vlib.run_tlc("PaginateMC", "wit.cfg", extra_files={"wit.cfg": cfgtxt}, timeout=300, workers=1, heap_gb=1)
 
     threads = [threading.Thread(target=one_witness, args=(w,)) for w in wits]
@@ -214,19 +273,31 @@ def run(tier, seed, replay):
         rows = []
         if rep.get("ops") is not None:
             rows = [{"id": "replay", "kind": KINDS.index(rep["kind"]), "ps": rep["ps"], "init": rep["init"],
-                     "ops": rep["ops"], "uids": rep.get("uids", [])}]
+                     "ops": rep["ops"], "uids": rep.get("uids") or [], "cls": rep.get("cls") or [], "stems": rep.get("stems") or [],
+                     "salt": rep.get("salt", 0), "scheme": rep.get("scheme", "")}]
         if rep.get("cursors"):
             cursor_replay, cursor_how = rep["cursors"], rep.get("how")
         nrand = ncur = narb = 0
+        classes, required = {}, set()
+        for r in rows:  # the classes of the replayed history are enough for the harness
+            classes.setdefault(KINDS[r["kind"]], sorted(set(r["cls"])))
     else:
+        brows, classes, maps, required = boundary_histories(v, seed, tier)
         rows = cover_histories(v, seed, tier)
+        # the histories of the main graph are abstract over kind and classes: every second one runs under a class map
+        # of the TLC family of its kind, the others under classes drawn from the seed inside the harness
+        for n, r in enumerate(rows):
+            if n % 2 == 1:
+                fam = maps[KINDS[r["kind"]]]
+                r["cls"] = fam[(n // 2 + seed) % len(fam)]
+        rows = brows + rows
         nrand, ncur, narb = (400, 24, 150) if tier == "quick" else (6000, 200, 400)
     vlib.write_ndjson(hist_path, rows)
 
     phase("generate")
     # 3. run on the real code
     obs, obs_rows, gout, exhausted = run_harness(out, hist_path, seed, nrand, ncur, narb, cursor_replay, race=(tier == "thorough"),
-                                                      cursor_how=cursor_how)
+                                                      cursor_how=cursor_how, classes=classes)
     if "DATA RACE" in gout:
         v.violation("race", "data race reported by the race detector", {"output": gout[-3000:]})
     phase("go")
@@ -260,6 +331,32 @@ def run(tier, seed, replay):
         "iterrun_lines_over_an_empty_page_with_cursor": iterrun_over_empty}
     # (decided after the monitor has judged the log: on a changed tree the same cause may show up as a violation)
     vacuous_filter = not replay and (iter_over_empty == 0 or iterrun_over_empty == 0 or iter_over_short == 0)
+    # identifier classes at page boundaries: (kind, page size, class) of the identifier inside a cursor that a manual
+    # traversal then followed, i.e. the next page fetch of the same traversal was answered with a page
+    at_boundary, followed, curlens = set(), set(), {}
+    for tid, start, trows in traces:
+        head, prev = trows[0], None
+        for r in trows[1:]:
+            if r["ev"] == "start":
+                prev = None
+            elif r["ev"] == "page":
+                if prev is not None and not r.get("err"):
+                    followed.add(prev)
+                prev = None
+                if not r.get("err") and r.get("more") and r.get("endcls", "none") != "none":
+                    prev = (head.get("kind"), head.get("ps"), r["endcls"])
+                    at_boundary.add(prev)
+                    size = r["endcls"].split("/")[0]
+                    lo, hi = curlens.get(size, (r["curlen"], r["curlen"]))
+                    curlens[size] = (min(lo, r["curlen"]), max(hi, r["curlen"]))
+    missing_boundary = sorted(required - followed)
+    v.cov["identifier_classes"] = {
+        "classes_per_kind": {k: len(c) for k, c in sorted(classes.items())},
+        "kind_x_pagesize_x_class_required_at_a_page_boundary": len(required),
+        "kind_x_pagesize_x_class_seen_at_a_page_boundary": len(at_boundary),
+        "of_which_cursor_followed": len(followed),
+        "cursor_length_by_size_class": {k: list(x) for k, x in sorted(curlens.items())},
+        "traces_with_a_non_short_identifier": sum(1 for (_, _, tr) in traces if any(c != "short/plain" for c in tr[0].get("clsmap") or []))}
     cls = {}
     for r in obs_rows:
         if r.get("ev") == "cursor":
@@ -290,7 +387,9 @@ def run(tier, seed, replay):
     v.cov["feature_kinds"] = sorted(k for k in kinds_seen if k)
     v.cov["rule"] = ("histories = transition cover of the TLC state graph of PaginateMC!CoverSpec (every edge, StartTraversal(H) and Iterate(H) "
                      "for every hidden set H of the tier: 4 in quick, all 32 in thorough; graph reduced by a "
-                     "VIEW that hides ghost variables) x feature kinds + seeded random histories + cursor jobs; distinct by "
+                     "VIEW that hides ghost variables) x feature kinds x identifier class maps + transition cover of the boundary graph "
+                     "(PaginateMC!BoundarySpec: every kind x page size x class map of the tier, every class ends a non-final page) "
+                     "+ seeded random histories + cursor jobs; distinct by "
                      "(page size, initial set, operation sequence); non-trivial = a traversal fetched a page after the "
                      "registered set changed behind an earlier page")
     v.cov["exhaustive"] = False
@@ -319,15 +418,24 @@ def run(tier, seed, replay):
             if e.get("err") in ("crash", "hang"):
                 sig += ":" + e["err"]
             rep = {"kind": head.get("kind"), "ps": head.get("ps"), "init": head.get("init"), "uids": head.get("names", []),
+                   "cls": head.get("clsmap", []), "stems": head.get("stems", []), "salt": head.get("salt", 0), "scheme": head.get("scheme", ""),
                    "ops": ops_of(trows, upto), "history_hash": vlib.sha(ops_of(trows, upto))}
         rep["line"] = e
+        ctx = ""
+        if e["ev"] == "page":  # the cursor this request followed: which identifier it embeds
+            prev = [r for r in trows[1:upto - 1] if r["ev"] in ("page", "start")]
+            if prev and prev[-1]["ev"] == "page" and prev[-1].get("more"):
+                ctx = " [followed a %d-byte cursor issued for an identifier of class %s]" % (prev[-1].get("curlen", 0), prev[-1].get("endcls"))
         v.violation(sig, "monitor %s failed at log line %d, trace %s (%s, page size %s): %s" % (
             f["monfail"], f["line"], tid, head.get("kind"), head.get("ps"),
-            json.dumps({k: e.get(k) for k in ("ev", "cls", "op", "hid", "ids", "more", "err", "seq", "man", "trav", "alive", "panic") if e.get(k) not in (None, "", [])})[:400]), rep)
+            json.dumps({k: e.get(k) for k in ("ev", "cls", "op", "hid", "ids", "more", "err", "seq", "man", "trav", "alive", "panic") if e.get(k) not in (None, "", [])})[:400] + ctx), rep)
 
     phase("monitor")
     if vacuous_filter and not v.violations:
         raise vlib.MachineryError("vacuity: no iterator run crossed a page that arrived empty/shortened with a cursor: %r" % v.cov["filtered"])
+    if missing_boundary and not v.violations:
+        raise vlib.MachineryError("vacuity: %d (kind, page size, class) triples of the boundary graph never ended a non-final page whose "
+                                  "cursor was then followed, e.g. %r" % (len(missing_boundary), missing_boundary[:5]))
     if exhausted and not v.violations:
         raise vlib.MachineryError("the harness process crashed more than %d times (all known findings): coverage incomplete" % MAX_RESTARTS)
     v.cov["harness_restarts_exhausted"] = exhausted
@@ -337,7 +445,7 @@ def run(tier, seed, replay):
     cur_rows = [r for (tid, s, tr) in traces if tid not in bad_traces for r in tr]
     for attempt in range(5):
         sp = os.path.join(out, "obs_strict.ndjson")
-        vlib.write_ndjson(sp, cur_rows)
+        vlib.write_ndjson(sp, slim(cur_rows))
         ok, hwm, sres = vlib.run_strict("PaginateTrace", "PaginateTrace.cfg", sp, timeout=1500, heap_gb=8)
         v.add_tlc("PaginateTrace", sres)
         if ok:
